@@ -6,11 +6,11 @@ func init() {
 	registry = append(registry, property{id: "C02", parts: []part{
 		{name: "catalogue", pkg: "./c02", run: "^TestCatalogueSweep$",
 			shards:  [2]int{8, 16},
-			timeout: [2]time.Duration{18 * min, 30 * min},
+			timeout: [2]time.Duration{18 * min, 60 * min},
 			env:     [2][]string{{"VERIF_C02_CTXS=2"}, {"VERIF_C02_CTXS=5"}}},
 		{name: "controlflow", pkg: "./c02", run: "^TestControlFlow$",
-			shards: [2]int{8, 16}, checks: [2]int{25, 2500}, timeout: [2]time.Duration{18 * min, 45 * min}},
+			shards: [2]int{8, 16}, checks: [2]int{25, 1800}, timeout: [2]time.Duration{18 * min, 90 * min}},
 		{name: "insertions", pkg: "./c02", run: "^TestInsertions$",
-			shards: [2]int{8, 16}, checks: [2]int{12, 1200}, timeout: [2]time.Duration{18 * min, 45 * min}},
+			shards: [2]int{8, 16}, checks: [2]int{12, 900}, timeout: [2]time.Duration{18 * min, 90 * min}},
 	}})
 }
